@@ -96,7 +96,7 @@ def case_task(task):
                     o1 += 1
                 if o2 < o1 and n > 0:
                     o2 = o1
-            skip = rng.choice(SKIPS) if unit in ("d", "w") and rng.random() < .4 else None
+            skip = rng.choice(SKIPS) if unit in ("d", "w", "mo", "y") and rng.random() < .4 else None
             from_last = rng.random() < .25 and unit != "b"
             a, b = addsweep.ktext(K, o1)[0], addsweep.ktext(K, o2)[0]
             default_inc = unit == "d" and n == 1 and rng.random() < .5
